@@ -25,6 +25,12 @@ MaxLen == IF Tier = "quick" THEN 4 ELSE 5
 \*            a   n    i    m    1   0   .   "   '   \   /   \n  sp  #   é    (   )   =   NUL
 Alphabet == <<97, 110, 105, 109, 49, 48, 46, 34, 39, 92, 47, 10, 32, 35, 233, 40, 41, 61, 0>>
 NA == Len(Alphabet)
+\* a second, smaller alphabet for longer texts: quotes, the backslash and every layout character which may follow it
+\*             "   '   \   CR  LF  TAB a   n
+Alphabet2 == <<34, 39, 92, 13, 10, 9, 97, 110>>
+MaxLen2 == IF Tier = "quick" THEN 5 ELSE 6
+Alph(al) == IF al = 1 THEN Alphabet ELSE Alphabet2
+MaxL(al) == IF al = 1 THEN MaxLen ELSE MaxLen2
 
 \* token spellings for the layout family
 Spell == <<
@@ -49,12 +55,12 @@ Join3(a, s1, b, s2, c, lead, trail) == lead \o Spell[a] \o s1 \o Spell[b] \o s2 
 Types(toks) == [k \in 1..Len(toks) |-> toks[k][1]]
 
 Init ==
-  \/ \E c \in 1..NA : row = [k |-> "lex", cs |-> <<Alphabet[c]>>, toks |-> Lex(<<Alphabet[c]>>)]
+  \/ \E al \in 1..2 : \E c \in 1..Len(Alph(al)) : row = [k |-> "lex", al |-> al, cs |-> <<Alph(al)[c]>>, toks |-> Lex(<<Alph(al)[c]>>)]
   \/ \E a \in 1..NS, b \in 1..NS : row = [k |-> "lay0", a |-> a, b |-> b]
 
 Next ==
-  \/ /\ row.k = "lex" /\ Len(row.cs) < MaxLen
-     /\ \E c \in 1..NA : LET s == Append(row.cs, Alphabet[c]) IN row' = [k |-> "lex", cs |-> s, toks |-> Lex(s)]
+  \/ /\ row.k = "lex" /\ Len(row.cs) < MaxL(row.al)
+     /\ \E c \in 1..Len(Alph(row.al)) : LET s == Append(row.cs, Alph(row.al)[c]) IN row' = [k |-> "lex", al |-> row.al, cs |-> s, toks |-> Lex(s)]
   \/ /\ row.k = "lay0"
      /\ \E c \in 1..NS, s1 \in 1..NSep, s2 \in 1..NSep, edge \in BOOLEAN :
           /\ (Tier = "thorough" \/ (row.a + 3 * row.b + 5 * c + s1 + 2 * s2 + Seed - 1) % 5 = 0)
